@@ -64,6 +64,43 @@ def main(tier_):
                                 "%s backend: %s of a %d-byte path (%s...%s) gave %s, the kernel's in-root resolution gives %s" % (bname, o["op"], len(pth), pth[:24], pth[-12:], got, truth or ko[kidx]),
                                 dict(id="replay", tree=ltree, feat={"openat2": bname == "kernel"}, trace=False, calls=[op_to_calls(o, pth)[0]]))
     cov["long_path_cases"] = nlong
+    # names and paths that are not valid UTF-8 (paths are byte strings), with look-alike siblings whose names are what a
+    # lossy conversion would produce: library on both backends against the raw openat2, by object identity
+    hx = lambda b: b.hex()
+    rtree = [dict(id=5, p=2, n="", nhex=hx(b"caf\xe9"), k="dir"), dict(id=6, p=5, n="inner", k="file"),
+             dict(id=7, p=2, n="caf\ufffd", k="dir"), dict(id=8, p=7, n="inner", k="file"),
+             dict(id=9, p=2, n="", nhex=hx(b"\xff\xfe"), k="file"), dict(id=10, p=2, n="\ufffd\ufffd", k="file"),
+             dict(id=11, p=2, n="lk", k="lnk", b="", bhex=hx(b"caf\xe9/inner")), dict(id=12, p=2, n="", nhex=hx(b"l\xe9"), k="lnk", b="caf\ufffd/inner")]
+    rpaths = [b"caf\xe9/inner", b"caf\xe9", b"\xff\xfe", b"lk", b"l\xe9", b"caf\xe9/../\xff\xfe", "caf\ufffd/inner".encode(), b"caf\xe9/nx\x80"]
+    rops = [dict(op="resolve"), dict(op="resolve", nofollow=True), dict(op="open", oflags=O["RDONLY"] | O["NONBLOCK"]), dict(op="resolve", nosym=True)]
+    rcases = []
+    for bname, feat in (("kernel", {"openat2": True}), ("emulated", {"openat2": False})):
+        calls = []
+        for pth in rpaths:
+            for o in rops:
+                calls.append(dict(o, path="", path_hex=pth.hex()))
+                if bname == "kernel":
+                    kfl = O["PATH"] | (O["NOFOLLOW"] if o.get("nofollow") else 0) if o["op"] == "resolve" else o["oflags"]
+                    calls.append(dict(op="kopen", path="", path_hex=pth.hex(), oflags=kfl, nosym=bool(o.get("nosym"))))
+        rcases.append(dict(id="rawbytes|" + bname, tree=rtree, feat=feat, trace=False, calls=calls))
+    rres = run_pv(rcases, jobs=2, tag="C01r")
+    kro, ero = outs(rres[0]), outs(rres[1])
+    nraw = 0
+    for pi, pth in enumerate(rpaths):
+        for oi, o in enumerate(rops):
+            kidx, eidx = 2 * (pi * len(rops) + oi), pi * len(rops) + oi
+            if kidx + 1 >= len(kro) or eidx >= len(ero):
+                raise ToolError("raw-byte batch incomplete: %s" % json.dumps(rres)[:300])
+            truth = kro[kidx + 1]
+            nraw += 1
+            for bname, got in (("kernel", kro[kidx]), ("emulated", ero[eidx])):
+                if ("err", "EAGAIN") in (got, truth) or got == ("err", "SAFETY"):
+                    continue
+                if got != truth:
+                    v.violation(dict(check="static-lookup-rawbytes", backend=bname, op=o["op"], path_hex=pth.hex(), got=list(got), want=list(truth)),
+                                "%s backend: %s of the path %r (bytes that are not valid UTF-8) gave %s, the kernel's in-root resolution gives %s" % (bname, o, pth, got, truth),
+                                dict(id="replay", tree=rtree, feat={"openat2": bname == "kernel"}, trace=False, calls=[dict(o, path="", path_hex=pth.hex())]))
+    cov["raw_byte_path_cases"] = nraw
     rc = v.finish()
     write_evidence("C01", tier_, "model_checking", cov, ASSUME, wall, len(v.violations))
     return rc
